@@ -33,6 +33,7 @@ Print Assumptions C06_merge_tid_subsequence.
 (* --no-merge view: one line per record, in merge order, carrying the record's task and
    timestamp; the printed timestamps never decrease *)
 Theorem C06_lines_in_time_order : forall forks sel tasks,
+  lost_free tasks = true ->
   Forall time_sorted (map k_recs tasks) ->
   let ls := filter not_warn (fst (replay_raw (mkcfg false forks) sel tasks)) in
   map tag_of_line ls = map tag_of_rec (merge (mask_queues sel tasks 0)) /\
@@ -90,9 +91,23 @@ Theorem C06_fork_child_continues : forall forks tasks S i r tl p,
               | O => []
               | _ => mkev false i (N.pred (s_fork (nth p S sstate0))) (r_addr r) 0 (r_time r) :: rest
               end
+    | LOST => []
     end.
 Proof. exact fork_child_continues. Qed.
 Print Assumptions C06_fork_child_continues.
+
+(* ---- LOST markers (libmcount buffer overflow) ---- *)
+(* In the --no-merge view every ENTRY/EXIT record is shown with its task, function and timestamp,
+   a LOST marker shows no call, and every record that lies in a depth-consistent stretch after a
+   LOST marker of its task ([marks]) is indented by its own depth field: the nesting restarts at the
+   depth of the first record after the gap.  Holds for every input (no well-formedness needed);
+   with C06_fold_is_presentation also for the default view.  Durations of calls that were open
+   at the marker or entered inside the gap are what the reader's slots give (model only). *)
+Theorem C06_lost_resync : forall forks sel tasks,
+  aligned (merge (mask_queues sel tasks 0)) (marks (merge (mask_queues sel tasks 0)) (T0 tasks))
+          (events_of (fst (replay_raw (mkcfg false forks) sel tasks))).
+Proof. exact replay_lost_resync. Qed.
+Print Assumptions C06_lost_resync.
 
 (* ---- presentation options ---- *)
 (* leaf folding (default) vs --no-merge: same calls, same indentation, same durations *)
